@@ -84,6 +84,21 @@ Proof.
   - rewrite IH, <- app_assoc. cbn [app]. rewrite andb_assoc. reflexivity.
 Qed.
 
+(* the round recorded in a step is the number of answers its service had given before (the harness's
+   stub indexes the script by this attempt number, the model by round) *)
+Fixpoint att_ok_b (seen todo : list step) : bool :=
+  match todo with
+  | [] => true
+  | s :: r => (st_round s =? List.length (hist (st_done s) seen)) && att_ok_b (seen ++ [s]) r
+  end.
+Lemma att_ok_b_snoc a : forall seen s,
+  att_ok_b seen (a ++ [s]) = att_ok_b seen a && (st_round s =? List.length (hist (st_done s) (seen ++ a))).
+Proof.
+  induction a as [|x a IH]; intros seen s; cbn [app att_ok_b].
+  - rewrite app_nil_r, andb_true_r. reflexivity.
+  - rewrite IH, <- app_assoc. cbn [app]. rewrite andb_assoc. reflexivity.
+Qed.
+
 (* loc_ok_b holds of the last 200 body *)
 Lemma loc_ok_fold tr : forall l0,
   let l := fold_left (fun l s => if is200 (st_out s) then o_body (st_out s) else l) tr l0 in
@@ -147,6 +162,7 @@ Record RInv (round : nat) (servers : list nat) (dn td : nat) (lc : string) (tr :
   ri_hist : forall x, In x servers ->
             forallb (fun o => retryable (o_code o)) (hist x tr) = true /\ List.length (hist x tr) = round;
   ri_retry : retry_ok_b retries [] tr = true;
+  ri_att : att_ok_b [] tr = true;
   ri_exh : forall x, In x sv0 -> ~ In x servers -> 1 <= List.length (hist x tr) /\ last_retryable x tr = false
 }.
 
@@ -164,6 +180,7 @@ Record Inv (round : nat) (servers : list nat) (tr0 : list step) (s : st) : Prop 
   iv_retry : retry s = filter (fun x => retryable (o_code (answer x round))) (rev (completed s));
   iv_hist : forall x, hist x (steps s) = hist x tr0 ++ (if mem x (completed s) then [answer x round] else []);
   iv_rok : retry_ok_b retries [] (steps s) = true;
+  iv_att : att_ok_b [] (steps s) = true;
   iv_pok : forallb (may_contact_b retries (steps s)) (pend s) = true;
   iv_gain : done s = total_stored tr0 + gain round (completed s);
   iv_pn : pend s = [] \/ (active s <> [] /\ todo s <> 0)
@@ -219,6 +236,7 @@ Proof.
   - apply (iv_retry _ _ _ _ I).
   - apply (iv_hist _ _ _ _ I).
   - apply (iv_rok _ _ _ _ I).
+  - apply (iv_att _ _ _ _ I).
   - rewrite forallb_app, (iv_pok _ _ _ _ I). cbn [forallb]. rewrite andb_true_r, andb_true_l.
     unfold may_contact_b. rewrite (iv_hist _ _ _ _ I x).
     assert (Hm : mem x (completed s) = false).
@@ -265,6 +283,10 @@ Proof.
       rewrite Hm, app_nil_r. reflexivity.
     + assert (E' : (y =? x) = false) by (apply Nat.eqb_neq; congruence). rewrite E'. cbn [orb]. rewrite app_nil_r. reflexivity.
   - rewrite retry_ok_b_snoc. cbn [app st_started]. rewrite (iv_rok _ _ _ _ I), (iv_pok _ _ _ _ I). reflexivity.
+  - rewrite att_ok_b_snoc. cbn [app st_round st_done]. rewrite (iv_att _ _ _ _ I), (iv_hist _ _ _ _ I x).
+    assert (Hm : mem x (completed s) = false).
+    { destruct (mem x (completed s)) eqn:Em; [|reflexivity]. exfalso. apply Hxc. apply mem_In. exact Em. }
+    rewrite Hm, app_nil_r. destruct (Hhist x Hxs) as [_ Hl]. rewrite Hl, Nat.eqb_refl. reflexivity.
   - reflexivity.
   - rewrite (iv_gain _ _ _ _ I). unfold gain. cbn [map]. fold o. change (list_sum (?a :: ?l)) with (a + list_sum l). lia.
   - left. reflexivity.
@@ -327,6 +349,7 @@ Proof.
   - reflexivity.
   - intros x. cbn [mem existsb]. rewrite app_nil_r. reflexivity.
   - apply (ri_retry _ _ _ _ _ _ R).
+  - apply (ri_att _ _ _ _ _ _ R).
   - reflexivity.
   - unfold gain. cbn. rewrite (ri_done _ _ _ _ _ _ R). lia.
   - left. reflexivity.
@@ -363,6 +386,7 @@ Proof.
     rewrite Hm. destruct (ri_hist _ _ _ _ _ _ R x Hxs) as [A B]. rewrite forallb_app, A. cbn [forallb]. rewrite Hxr.
     split; [reflexivity|]. rewrite app_length, B. cbn [List.length]. lia.
   - apply (iv_rok _ _ _ _ I).
+  - apply (iv_att _ _ _ _ I).
   - intros x Hx0 Hnr. destruct (in_dec Nat.eq_dec x servers) as [Hxs|Hxs].
     + (* answered in this round, not retryable *)
       assert (Hm : mem x (completed s) = true) by (apply mem_In; eapply Permutation_in; [exact Hperm|exact Hxs]).
@@ -381,6 +405,7 @@ Qed.
 Record Post (r : run) : Prop := {
   po_steps : Forall step_ok (r_steps r);
   po_retry : retry_ok_b retries [] (r_steps r) = true;
+  po_att : att_ok_b [] (r_steps r) = true;
   po_flight : Permutation (flat_map st_started (r_steps r)) (map st_done (r_steps r) ++ r_abandoned r);
   po_aband : incl (r_abandoned r) sv0;
   po_ok : forall l n, r_res r = Ok l n -> want <= n /\ n = total_stored (r_steps r) /\ l = last200 (r_steps r);
@@ -424,6 +449,7 @@ Proof.
   - apply Nat.eqb_eq in E0. constructor; cbn [r_res r_steps r_abandoned].
     + apply (iv_steps _ _ _ _ I).
     + apply (iv_rok _ _ _ _ I).
+    + apply (iv_att _ _ _ _ I).
     + exact Hfl.
     + exact Hact.
     + intros l n [= <- <-]. pose proof (iv_todo _ _ _ _ I). split; [lia|]. split; [apply (iv_done _ _ _ _ I)|apply (iv_loc _ _ _ _ I)].
@@ -435,6 +461,7 @@ Proof.
     + apply Nat.eqb_eq in Er. subst r. constructor; cbn [r_res r_steps r_abandoned].
       * apply (iv_steps _ _ _ _ I).
       * apply (iv_rok _ _ _ _ I).
+      * apply (iv_att _ _ _ _ I).
       * exact Hfl.
       * exact Hact.
       * intros l n Hx. discriminate.
@@ -458,6 +485,7 @@ Proof.
   - constructor.
   - constructor.
   - intros x _. split; reflexivity.
+  - reflexivity.
   - reflexivity.
   - intros x H1 H2. contradiction.
 Qed.
